@@ -4,6 +4,7 @@ import inspect
 import itertools
 import sys
 import textwrap
+import threading
 import typing
 from collections import OrderedDict, defaultdict
 from dataclasses import dataclass, field, replace
@@ -109,7 +110,7 @@ class LazySignature(inspect.Signature):
 
 def bootstrap_dispatch(ov, name):
     def first_entry(*args, **kwargs):
-        ov.compile()
+        ov.ensure_compiled()
         return ov.dispatch(*args, **kwargs)
 
     dispatch = FunctionType(
@@ -369,6 +370,7 @@ class Ovld:
         """Initialize an Ovld."""
         self.id = next(_current_id)
         self._compiled = False
+        self._build_lock = threading.RLock()
         self.linkback = linkback
         self.children = []
         self.allow_replacement = allow_replacement
@@ -486,7 +488,10 @@ class Ovld:
 
     def ensure_compiled(self):
         if not self._compiled:
-            self.compile()
+            with self._build_lock:
+                # Another thread may have built the function in the meantime
+                if not self._compiled:
+                    self.compile()
 
     def compile(self):
         """Finalize this overload.
@@ -498,6 +503,10 @@ class Ovld:
         This will also lock this ovld's parent mixins to prevent their
         modification.
         """
+        with self._build_lock:
+            self._compile()
+
+    def _compile(self):
         self._lock_parents()
 
         if self.name is None:
@@ -624,8 +633,7 @@ class Ovld:
             return ov
 
     def __get__(self, obj, cls):
-        if not self._compiled:
-            self.compile()
+        self.ensure_compiled()
         return self.dispatch.__get__(obj, cls)
 
     @_setattrs(rename="dispatch")
@@ -634,8 +642,7 @@ class Ovld:
 
         This should be replaced by an auto-generated function.
         """
-        if not self._compiled:
-            self.compile()
+        self.ensure_compiled()
         return self.dispatch(*args, **kwargs)
 
     @_setattrs(rename="next")
